@@ -112,7 +112,7 @@ type propCfg struct {
 var props = map[string]propCfg{}
 
 func env(work string, extra ...string) []string {
-	e := []string{"VERIF_ARGVDUMP=" + filepath.Join(verif, "bin", "argvdump"), "PATH=/usr/local/go/bin:/usr/bin:/bin:" + filepath.Dir(goBin()), "HOME=" + work, "VERIF_WORK=" + filepath.Join(work, "w"), "GOMAXPROCS=1", "GOGC=800", "TMPDIR=" + filepath.Join(work, "w")}
+	e := []string{"VERIF_ARGVDUMP=" + filepath.Join(verif, "bin", "argvdump"), "PATH=/usr/local/go/bin:/usr/bin:/bin:" + filepath.Dir(goBin()), "HOME=" + work, "VERIF_WORK=" + filepath.Join(work, "w"), "GOMAXPROCS=1", "GOGC=800", "VERIF_FREE_RUNS=8", "TMPDIR=" + filepath.Join(work, "w")}
 	return append(e, extra...)
 }
 
